@@ -149,6 +149,8 @@ def run_check(pid, tier, seed, replay=None):
         path = write_replay(pid, 'violation', {'property': pid, 'seed': seed, 'tier': tier, 'violation': v,
                                                'others': len(oracle_v) - 1})
         print('%s: %s' % (pid, v['what']))
+        for w in oracle_v[1:8]:
+            print('%s: (also) %s' % (pid, w['what'][:300]))
         print('VIOLATION property=%s replay=%s' % (pid, path))
         rc = 1
     elif corr_v or broken:
